@@ -9,7 +9,7 @@
      - the STRICT, independent ones written from the format layout: ogg_parse (every page is the canonical rendering,
        with the RFC 3533 checksum of Model.Crc, of the page it parses to), ogg_wf (per logical stream: gapless
        sequence numbers, continued <=> the previous page of the stream left a packet open, first-page flag exactly on
-       the first page, nothing after a last-page flag, granule -1 on pages finishing no packet), ogg_load (second
+       the first page, nothing after a last-page flag, granule -1 on pages finishing no packet: ogg_f_walk), ogg_load (second
        packet of the first stream whose first packet is the codec's identification header, decoded with
        Fam_flac.vc_parse).
    Bytes are list Z.  What is modelled rather than mirrored: the identification-header checks of the *Info classes
@@ -301,23 +301,22 @@ Definition ogg_parse (f : list Z) : result (list page) := ogg_f_pages (S (length
 
 (* the rules of one logical stream (its pages in file order) *)
 Definition ogg_f_is_serial (s : Z) (p : page) : bool := p_serial p =? s.
-Fixpoint ogg_f_seq_ok (n : Z) (l : list page) : bool :=
-  match l with [] => true | p :: r => (p_sequence p =? n) && ogg_f_seq_ok (n + 1) r end.
-Fixpoint ogg_f_chain_ok (c : bool) (l : list page) : bool :=
-  match l with [] => true | p :: r => Bool.eqb (continued p) c && ogg_f_chain_ok (negb (p_complete p)) r end.
-Definition ogg_f_first_ok (l : list page) : bool :=
-  match l with [] => true | p :: r => first p && forallb (fun q => negb (first q)) r end.
-Fixpoint ogg_f_last_ok (l : list page) : bool :=
-  match l with
-  | [] => true
-  | p :: r => match r with [] => true | _ => negb (last_flag p) && ogg_f_last_ok r end
-  end.
 (* a page on which no packet ends carries granule position -1 *)
 Definition ogg_f_granule_ok (p : page) : bool :=
   if negb (p_complete p) && (zlen (p_packets p) =? 1) then p_position p =? -1 else true.
-Definition ogg_f_stream_ok (l : list page) : bool :=
-  ogg_f_seq_ok (p_sequence (hd new_page l)) l && ogg_f_chain_ok false l && ogg_f_first_ok l && ogg_f_last_ok l &&
-  forallb ogg_f_granule_ok l.
+(* the walk along the pages of one stream.  State: has the stream started, the sequence number the next page must
+   carry, whether the previous page left a packet open, whether a last-page flag has been seen.
+   The first page carries the first-page flag (and no later page does) and may have any number; no page follows a
+   last-page flag; numbers are consecutive; continued <=> a packet is open; the granule rule holds on every page. *)
+Fixpoint ogg_f_walk (started : bool) (seq : Z) (open eos : bool) (l : list page) : bool :=
+  match l with
+  | [] => true
+  | p :: r =>
+    negb eos && (if started then (p_sequence p =? seq) && negb (first p) else first p) &&
+    Bool.eqb (continued p) open && ogg_f_granule_ok p &&
+    ogg_f_walk true (p_sequence p + 1) (negb (p_complete p)) (last_flag p) r
+  end.
+Definition ogg_f_stream_ok (l : list page) : bool := ogg_f_walk false 0 false false l.
 Definition ogg_f_streams_ok (pages : list page) : bool :=
   forallb (fun p => ogg_f_stream_ok (filter (ogg_f_is_serial (p_serial p)) pages)) pages.
 
